@@ -50,7 +50,14 @@ def self_validation(prop: str) -> None:
     from selftest import generic, run as st_run
     from selftest.catalogue import ENTRIES
 
-    entries = [e for e in list(ENTRIES) + generic.entries() if prop in e["props"]]
+    def expected_here(e):
+        # a mutant listed under several properties is expected to be reported by those its `expect` names; the others only run on it
+        if e["kind"] != "mutant":
+            return True
+        exp = e["expect"] if isinstance(e["expect"], list) else [e["expect"]]
+        return any(x.startswith(prop) for x in exp)
+
+    entries = [e for e in list(ENTRIES) + generic.entries() if prop in e["props"] and expected_here(e)]
     st_run.ONLY.clear()
     st_run.ONLY.add(prop)
     with Pool(min(16, max(1, len(entries)))) as pool:
